@@ -1222,6 +1222,57 @@ def run_program(prog, modes, extract_at=None, repeat=1, inject=None):
     conds = prog["conds"]
     trace = []
     result = None
+    if "opjump" in S.modes:
+        # The frame under test is also looked at BETWEEN its calls: an opcode-level trace function (what a debugger, a
+        # signal handler or another thread may see) inspects it whenever the instruction it is about to execute is a
+        # backward jump - the back edge of a loop, where the interpreter handles signals and switches threads.
+        _install_opjump_tracer(ns["f"].__code__)
+    try:
+        return _run_program_body(prog, kind, conds, trace, result, ns, src)
+    finally:
+        if "opjump" in S.modes:
+            sys.settrace(None)
+
+
+def _install_opjump_tracer(code):
+    import dis
+    try:
+        back = set(i.offset for i in dis.get_instructions(code)
+                   if (i.opcode in dis.hasjrel or i.opcode in dis.hasjabs) and isinstance(i.argval, int) and i.argval <= i.offset
+                   # (not the jump inside the loop that `await` / `yield from` compile to on 3.11+: the interpreter attends
+                   # to nothing there, and nothing can look at a frame while it is at that instruction)
+                   and i.opname != "JUMP_BACKWARD_NO_INTERRUPT")
+    except ValueError:
+        return      # (a constant dis cannot render: this leg is skipped for that program)
+    if not back:
+        return
+    from stackscope.lowlevel import contexts_active_in_frame as _caif
+
+    def local(frame, event, arg):
+        if event == "opcode" and frame.f_lasti in back and not S.cleanup and S.fr and frame is S.fr[0]:
+            where = ["opjump", frame.f_lasti]
+            S.bump("run.at_backward_jump")
+            with warnings.catch_warnings(record=True) as w:
+                warnings.simplefilter("always")
+                try:
+                    cs = _caif(frame)
+                except BaseException as ex:
+                    add_obs("run.raised", where, exc=repr(ex))
+                    return local
+            note_warnings(w, where, "run")
+            check_exact(cs, where, "run")
+        return local
+
+    def tracer(frame, event, arg):
+        if frame.f_code is code:
+            frame.f_trace_opcodes = True
+            return local
+        return None
+
+    sys.settrace(tracer)
+
+
+def _run_program_body(prog, kind, conds, trace, result, ns, src):
     if kind == "func":
         try:
             rv = ns["f"](conds)
